@@ -112,6 +112,7 @@ class Run:
         self.codes_seen = {}
         self.classes = {}
         self.states = set()
+        self.view_queries_after_mutation = 0
 
 
 def lockstep(ops, obs, forced, upto=None, pid=PID, collect=None, base=frozenset()):
@@ -119,6 +120,7 @@ def lockstep(ops, obs, forced, upto=None, pid=PID, collect=None, base=frozenset(
     m = Model()
     run = Run()
     i = -1
+    mutated = False
     for op in ops:
         if op.name == 'kill':
             continue
@@ -169,6 +171,10 @@ def lockstep(ops, obs, forced, upto=None, pid=PID, collect=None, base=frozenset(
             return run
         run.compared += 1
         run.kinds.add(op.name)
+        if op.name in domref.MUTATING or (op.name == 'rg' and len(op.args) > 1 and op.args[1] in ('delete', 'extract', 'insertNode', 'surround')):
+            mutated = True
+        elif mutated and op.name in ('it', 'tw', 'list', 'map', 'rg', 'getById') and m.views:
+            run.view_queries_after_mutation += 1
         run.seq.append((op.name, o.outcome))
         run.classes[op.name + ':' + exp.cls] = run.classes.get(op.name + ':' + exp.cls, 0) + 1
         if exp.codes is not None:
@@ -539,7 +545,7 @@ def run_shard(args):
             sk = run.stopped.split(':')[0] + ':' + run.stopped.split(':', 1)[1][:40]
             out['stopped'][sk] = out['stopped'].get(sk, 0) + 1
         out['states'] |= run.states
-        if run.compared >= 10 and len(run.kinds) >= 4 and run.exc_expected >= 1:
+        if run.compared >= 10 and len(run.kinds) >= 4 and run.exc_expected >= 1 and (not opts.get('views') or run.view_queries_after_mutation >= 5):
             out['distinct'].append(core.h(run.seq))
         if viol:
             suspects.append((c, viol))
@@ -765,7 +771,7 @@ def _run(ck, cfg, tier, binary, opts=None):
     return ck.finish()
 
 
-def replay(j):
+def replay(j, pid=PID, base=frozenset()):
     binary = build.ensure('asan', parts=['domscript'])
     w = j['witness']
     cj = w.get('minimal_case') or w['case']
@@ -783,7 +789,7 @@ def replay(j):
             print(r.crash.text[:3000])
         return 1
     obs, xl = parse_obs(r.lines)
-    run_, viol = compare_case(ops, obs)
+    run_, viol = compare_case(ops, obs, pid, base)
     for key, what, det in viol:
         print('VIOLATED', key, what)
         print(json.dumps(det, indent=1, default=str)[:6000])
